@@ -170,6 +170,34 @@ func init() {
 						c.Outcome(dblShape(v))
 					}
 				}
+				// integral doubles beyond the 16-bit forms: 2^k + d and 10^k + d (exact while below 2^53)
+				for k := 0; k <= 62; k++ {
+					for d := int64(-3); d <= 3; d++ {
+						for _, sign := range []float64{1, -1} {
+							if c.Begin() {
+								checkDouble(c, s, sign*float64((int64(1)<<uint(k))+d), scratch)
+							}
+						}
+					}
+				}
+				p10 := int64(1)
+				for k := 0; k <= 18; k++ {
+					for d := int64(-2); d <= 2; d++ {
+						if c.Begin() {
+							checkDouble(c, s, float64(p10+d), scratch)
+						}
+						if c.Begin() {
+							checkDouble(c, s, -float64(p10+d), scratch)
+						}
+					}
+					p10 *= 10
+				}
+				for _, v := range []float64{123456789, 16777217, 33554431, 2147483647, 2147483648, 4294967295, 9007199254740991, 9007199254740993, 1e15 + 0.5, 3.0000000000000004, 127.00000000000001, 0.5000000000000001} {
+					if c.Begin() {
+						checkDouble(c, s, v, scratch)
+						checkDouble(c, s, -v, scratch)
+					}
+				}
 				c.NontrivialN(c.Res.Evaluations)
 			}})
 			for sh := 0; sh < 5; sh++ {
